@@ -54,12 +54,31 @@ pub fn check(sc: &Scenario, out: &RunOutput) -> OracleResult {
     // next sequence number E has not used yet (for detecting acks of unsent data)
     let mut e_next_seq: Option<u16> = w.e_first_seq;
     let mut last_state_wnd_zero: Option<bool> = None;
+    let mut fin_timer_flagged = false;
+    let mut closed_before_reset = false;
+    // first end-of-poll snapshot after the RESET arrived: (state, task finished)
+    let mut state_after_reset: Option<(String, bool)> = None;
 
     for (t, idx, x) in &evs {
         let (t, idx) = (*t, *idx);
         match x {
             X::Snap(s) => {
                 cur_state = s.state.to_string();
+                if reset_delivered.is_some() && state_after_reset.is_none() {
+                    state_after_reset = Some((s.state.to_string(), s.finished.is_some()));
+                }
+                // (b) while the endpoint's FIN is unacknowledged the retransmission timer runs; a
+                // FIN that is due (application closed, nothing left to send or acknowledge) is out
+                if s.finished.is_none() && s.state == "fin-wait-1" && !s.transport_pending && reset_delivered.is_none() && !hostile_ack {
+                    if e_fin.is_some() && s.t_retransmit.is_none() && !fin_timer_flagged {
+                        fin_timer_flagged = true;
+                        res.violate(P, "fin-unacked-without-retransmission-timer", t, format!("the endpoint's FIN (seq {}) is out and unacknowledged (state fin-wait-1) but its retransmission timer is idle at the end of this poll: the FIN will never be retransmitted", e_fin.map(|(_, f)| f).unwrap_or(0)));
+                    }
+                    if e_fin.is_none() && s.tx_ring_len == 0 && s.segmented_packets == 0 && !fin_timer_flagged {
+                        fin_timer_flagged = true;
+                        res.violate(P, "fin-due-but-not-sent", t, "the application closed, every accepted byte was transmitted and acknowledged (state fin-wait-1, empty transmit buffer), but no FIN was sent in this poll".to_string());
+                    }
+                }
                 if let Some(f) = &s.finished {
                     if death_at.is_none() {
                         death_at = Some((t, f.clone()));
@@ -78,6 +97,7 @@ pub fn check(sc: &Scenario, out: &RunOutput) -> OracleResult {
                     codec::ST_RESET => {
                         if death_at.is_none() {
                             reset_delivered = Some((t, idx));
+                            closed_before_reset = cur_state == "closed";
                         }
                     }
                     codec::ST_DATA | codec::ST_STATE | codec::ST_FIN => {
@@ -299,7 +319,11 @@ pub fn check(sc: &Scenario, out: &RunOutput) -> OracleResult {
     if let Some((tr, _)) = reset_delivered {
         let ended = death_at.as_ref().map(|(td, _)| *td);
         let backpressure = w.h.fault_counts.get("backpressure").copied().unwrap_or(0) > 0;
-        if !backpressure {
+        // The close handshake had completed before the RESET's turn (earlier, or in the very
+        // batch that carried the RESET): the connection is closed, the RESET has nothing left
+        // to abort; the task only lingers to hand received data over to the reader.
+        let already_closed = closed_before_reset || state_after_reset.as_ref().is_some_and(|(st, fin)| st == "closed" && !*fin);
+        if !backpressure && !already_closed {
             match ended {
                 Some(td) if td == tr => {}
                 Some(td) => res.violate(P, "reset-not-immediate", td, format!("ST_RESET delivered at {}, connection ended at {}", crate::hist::fmt_t(tr), crate::hist::fmt_t(td))),
